@@ -22,9 +22,9 @@ CLAIMS = {
                 technique='abstract interpretation + exhaustive order-type evaluation + taint (validity mask)', ref='§5 C02'),
     'C03': dict(text='Static analysis of HilbertRtree: exhaustive weak-ordering (and NaN) evaluation of node pruning (soundness) and leaf classification (equivalence) for '
                      'n=1..3 dimensions, NaN-safe reductions in the builder, page/parent rows = (min of lower bounds, max of upper bounds), builder/reader agreement of the '
-                     'leaf<->key-slice arithmetic, cursor discipline of the result buffers, pairing of key slices with the masks computed from the same start:stop. GeometryArray.sindex is built on all rows\' bounds in array order; no fastmath (discharges the NaN-comparison assumption). Public wrappers return the traversal\'s answer; queries do not write the index.',
+                     'leaf<->key-slice arithmetic, cursor discipline of the result buffers, pairing of key slices with the masks computed from the same start:stop. GeometryArray.sindex is built on all rows\' bounds in array order; no fastmath (discharges the NaN-comparison assumption). Public wrappers return the traversal\'s answer; queries do not write the index. Small-scope evaluation (E-VEC) of the whole query methods on all small trees with NaN rows (exact answer, exactly once, covered/partial split), of the leaf page reduction, of the page count (every stored row is in a leaf) and of every raise guard reachable from the constructor over d in 1..3, p in 1..31; the query is handed to the traversal unmodified.',
                 undecided='disjointness of traversal ranges as an inductive invariant, independence from p as a whole, exactly-once as a whole.',
-                technique='exhaustive order-type evaluation of comparison-only fragments + CFG pairing + affine comparison', ref='§5 C03'),
+                technique='small-scope evaluation of the query / build kernels by abstract interpretation over small concrete domains + exhaustive order-type evaluation + CFG pairing', ref='§5 C03'),
     'C04': dict(text='Static analysis of the cx indexers: axes/defaults/swap/layout of _get_bounds (order-type evaluation), covered U tested rows with mask pairing and order '
                      'restoration, active geometry + parent handed to the indexer, positional selection, who may write _sindex. Necessary obligations of C03 (the index answers exactly) are re-reported here. Exact test on every path of the resolved __getitem__ (overrides and super() followed); boxes fed to the index (C13) re-reported.',
                 undecided='the exact test itself (C01), pandas indexing semantics.',
@@ -39,25 +39,25 @@ CLAIMS = {
                 undecided='Dask graph semantics, equality of computed values.',
                 technique='table/sibling agreement + def-use provenance + who-may-write', ref='§5 C06'),
     'C08': dict(text='Static analysis of hilbert_distance: no store into the total_bounds argument (effects), no cross-row operation between bounds and result, '
-                     'same-dimension centre/range, zero-extent widening on both axes, both clips dominate the return of _data2coord, delegation passes total_bounds and p. 64-bit width of the distances on the whole path to the caller. Every return passes through the grid kernel; no read of rows rewritten in place; total_bounds elements converted to float (homogeneous tuple for numba).',
+                     'same-dimension centre/range, zero-extent widening on both axes, both clips dominate the return of _data2coord, delegation passes total_bounds and p. 64-bit width of the distances on the whole path to the caller. Every return passes through the grid kernel; no read of rows rewritten in place; total_bounds elements converted to float (homogeneous tuple for numba). Small-scope evaluation (E-VEC) of _data2coord (scale, truncate, clamp; NaN to cell 0), of the box centres handed to it, and of the bit interleave for p up to 31 (every bit of both coordinates reaches the distance).',
                 undecided='the curve itself (C07), floating-point scaling exactness.',
-                technique='effect analysis + def-use non-interference + CFG dominance', ref='§5 C08'),
+                technique='effect analysis + def-use non-interference + small-scope evaluation of the scaling / interleave kernels', ref='§5 C08'),
     'C09': dict(text='Static analysis of pack_partitions: distance column from the active geometry with frame-level total_bounds evaluated once outside the per-partition '
                      'function and passed explicitly with the caller\'s p; assigned column = set_index column; npartitions/shuffle reach set_index; partition-count guard on every path. Necessary obligations of C08 and of the Dask total_bounds reduction are re-reported here. An already packed frame loses its old index before set_index (dask contract S9).',
                 undecided='row conservation and ordering under Dask\'s shuffle, independence from input partitioning.',
                 technique='def-use provenance + CFG must-pass-through', ref='§5 C09'),
     'C10': dict(text='Static analysis of pack_partitions_to_parquet and its closures: create/cleanup pairing of the placeholder and temp directory families on every normal path, '
                      'ordering (overwrite before makedirs, remove placeholder before write, read before delete, metadata on every path, fresh re-read returned), naming templates of '
-                     'sub-parts/placeholders/final files and the compaction move, validation of tempdir_format before use. Reader-side part ordering (C11.d/C12.c) re-reported: the returned frame is a re-read. Bulk renumbering must not delete targets; reader file provenance (listing, not recorded names).',
+                     'sub-parts/placeholders/final files and the compaction move, validation of tempdir_format before use. Renumbering moves form a serial ascending chain; no file addressed through its pre-rename name afterwards; empty-partition sentinel agreement between producer and filter; temp template only defaulted; removal confined to created directories; no per-call-fresh value in a default argument. Reader-side part ordering (C11.d/C12.c) re-reported: the returned frame is a re-read. Bulk renumbering must not delete targets; reader file provenance (listing, not recorded names).',
                 undecided='file contents, Dask quantiles/digitize, real filesystem effects.',
                 technique='CFG must-pass-through/ordering + path-template comparison', ref='§5 C10'),
     'C11': dict(text='Static analysis of the type registry and parquet hooks: closure of Dtype<->Array<->scalar<->Dask example<->nesting level for all seven kinds, arrow hooks, '
-                     'constructor acceptance of (Chunked)Array, index columns prepended to a projection, natural sort of pieces. Dtype parsing answers per class (no table inherited by subclasses); GeoSeries keeps the labels of Series-like input; one piece per file; dataset files come from the directory listing.',
+                     'constructor acceptance of (Chunked)Array, index columns prepended to a projection, natural sort of pieces. Dtype parsing answers per class (no table inherited by subclasses); GeoSeries keeps the labels of Series-like input; one piece per file; dataset files come from the directory listing. The pandas writer receives df/index/compression as given; projections keep the request order; dask token of a geometry array exists, includes the dtype and covers validity and offset (S10, S14); task names contain whole arguments; listings are not memoised; the glob filter only excludes metadata names.',
                 undecided='pyarrow/pandas serialisation itself (almost all value-level content of the property).',
                 technique='registry closure (table rule) + def-use', ref='§5 C11'),
     'C12': dict(text='Static analysis of partition-bounds metadata: writer/reader key agreement, per-partition values from that partition\'s total_bounds in partition order, '
                      'string->int conversion before the ordering sort, natural sort of pieces, closed-overlap filter with re-oriented box (exhaustive order-type evaluation), one mask '
-                     'for partitions/divisions/all bounds tables, bounds of the active geometry used for filtering. No memoisation of storage reads; the geometry name is read after set_geometry (CFG order); selection-key guard of cache propagation.',
+                     'for partitions/divisions/all bounds tables, bounds of the active geometry used for filtering. No memoisation of storage reads; the geometry name is read after set_geometry (CFG order); selection-key guard of cache propagation. Concrete small-scope fallback for computed overlap masks; NaN-aware merging of extents; class-level containers never filled through instances; box coordinates never tested for truth; array extents computed from the own window of the array.',
                 undecided='that the recorded numbers equal the data extents (C13, pyarrow).',
                 technique='key/table agreement + CFG ordering + order-type evaluation + def-use pairing', ref='§5 C12'),
     'C13': dict(text='Static analysis of bounds kernels and accessors: parity->axis, min/max roles, isfinite guards, sentinel->NaN, result layout, values/offsets pairing (absolute vs '
@@ -69,24 +69,24 @@ CLAIMS = {
                 undecided='that the shoelace/wrap-around formula is right, degenerate-ring threshold, floating-point accuracy.',
                 technique='abstract interpretation (units/dimensions/levels) + table rule', ref='§5 C14'),
     'C15': dict(text='Static analysis of oriented(): the mutating kernel receives a fresh copy (effects), the result is rebuilt from the same offsets per level with the validity mask '
-                     'outermost, kernel level typing (polygon offsets index rings, ring offsets index coordinates), shell = first ring, both strides reversed over the same range. Shell-marker store stays inside the per-ring array (start offsets of trailing part-less polygons excluded). Flip decision as a finite table over (sign of area, expected direction) in all worlds of sign-independent tests (tolerances), helpers followed.',
+                     'outermost, kernel level typing (polygon offsets index rings, ring offsets index coordinates), shell = first ring, both strides reversed over the same range. Shell-marker store stays inside the per-ring array (start offsets of trailing part-less polygons excluded). Flip decision as a finite table over (sign of area, expected direction) in all worlds of sign-independent tests (tolerances), helpers followed. Small-scope evaluation (E-VEC) of orient_polygons on all shells / holes over a small grid incl. repeated vertices: direction, same vertex cycle, area-less rings untouched; the result carries no state of the input.',
                 undecided='the sign convention, idempotence, effect on areas and intersections.',
-                technique='effect analysis + abstract interpretation (levels) + finite sign table + def-use', ref='§5 C15'),
+                technique='effect analysis + abstract interpretation (levels) + small-scope evaluation of the orientation kernel + finite sign table', ref='§5 C15'),
     'C16': dict(text='Static analysis of derived arrays: every positional raw-buffer read applies the array offset/length, absolute/re-based pairing at kernel call sites, _sindex never '
-                     'carried over, derivations construct the receiver\'s own class. Validity bitmap read for len(array) bits from bit array.offset (loop and vectorised idioms). Small-scope equivalence of the validity-bitmap read (offsets 0..20 x lengths 0..12 x 3 patterns); slice shortcuts of take/mask taken only for consecutive positions (all index vectors of length <= 4); scalars built with the array dtype.',
+                     'carried over, derivations construct the receiver\'s own class. Validity bitmap read for len(array) bits from bit array.offset (loop and vectorised idioms). Small-scope equivalence of the validity-bitmap read (offsets 0..20 x lengths 0..12 x 3 patterns); slice shortcuts of take/mask taken only for consecutive positions (all index vectors of length <= 4); scalars built with the array dtype. Small-scope equivalence of __getitem__ for integer vectors, boolean masks and slices (take inlined); derived arrays carry no state of their source.',
                 undecided='pandas-level semantics and error types, equality of derived quantities.',
                 technique='who-may-read raw buffers + abstract interpretation (base tags) + small-scope evaluation of index/bit arithmetic + who-may-write', ref='§5 C16'),
     'C17': dict(text='Static analysis, union of the inert-row rules: fixed-width placeholder values sanitised by the validity mask before any result, NaN rows never covered / never '
-                     'poisoning reductions in the R-tree, inert rows => False in every box kernel, NaN-ignoring Dask reductions, missing guard + NaN prefill in measures.',
+                     'poisoning reductions in the R-tree, inert rows => False in every box kernel, NaN-ignoring Dask reductions, missing guard + NaN prefill in measures. The dtype of an array built element by element is promoted over all non-missing elements (D30).',
                 undecided='the metamorphic relation as a whole (all results for other rows unchanged).',
                 technique='taint (validity mask) + NaN order-type evaluation + CFG must-guard', ref='§5 C17'),
     'C18': dict(text='Static effect analysis: prange bodies store only A[i] and call only store-free callees, parallel=True kernels use per-iteration result slots, Dask task functions '
-                     'write no captured/global state and their write targets are functions of the task identity, in-place kernels receive only fresh copies. Block boundaries derived from the thread count are provably even before they cut an interleaved buffer; decorator wrappers that store into the receiver; cx indexer works on one snapshot of the index.',
+                     'write no captured/global state and their write targets are functions of the task identity, in-place kernels receive only fresh copies. Block boundaries derived from the thread count are provably even before they cut an interleaved buffer; decorator wrappers that store into the receiver; cx indexer works on one snapshot of the index. Renumbering moves are not turned into tasks; pool tasks fill no shared list in completion order; values evaluated once (defaults, module constants) hold nothing that must be fresh per call.',
                 undecided='check-then-build caches under concurrent first access, numba runtime, Dask scheduler.',
                 technique='effect analysis (stores closed over the call graph) + provenance of mutated buffers', ref='§5 C18'),
     'C19': dict(text='Static analysis of the retried closures: no swallowed errors on the call tree (enumerated metadata-optional reads excepted), listing-equality gate dominates the '
                      'read of a sub-part directory and raises inside the retried function, removal re-checks existence and raises, retried writers open truncating, every filesystem '
-                     'operation goes through the caller\'s filesystem object. Retried functions mutate no state that outlives the attempt (captured or passed in). Attempt-independent write paths; per-attempt collector lists consumed one entry at a time.',
+                     'operation goes through the caller\'s filesystem object. Retried functions mutate no state that outlives the attempt (captured or passed in). Attempt-independent write paths; per-attempt collector lists consumed one entry at a time. Both sides of the listing gate are order-free in the same way.',
                 undecided='idempotence under real partial failures, the fault enumeration itself.',
                 technique='CFG dominance + handler discipline + who-may-call', ref='§5 C19'),
     'C20': dict(text='Static analysis of the active geometry: _geometry in _metadata, every frame-level spatial operation obtains the geometry through .geometry, constructor inheritance and '
@@ -96,8 +96,9 @@ CLAIMS = {
 }
 
 NOT_APPLICABLE = {
-    'C07': 'Bijectivity, adjacency and refinement of the Hilbert mapping are arithmetic facts about bit operations; no clause is a shape property (pairing, ordering, '
-           'ownership, layout) that a sound static rule could decide without evaluating the bit twiddling, and a structural proxy would be a frozen-text rule (DESIGN §5 C07, §7).',
+    'C07': 'Bijectivity, adjacency and refinement of the Hilbert mapping are arithmetic facts about the Gray-code / exchange steps of the curve; no clause is a shape property '
+           '(pairing, ordering, ownership, layout) that a sound static rule could decide, and a structural proxy would be a frozen-text rule (DESIGN §5 C07, §7). The one step with a '
+           'positional meaning - the bit interleave of the transposed coordinates - is decided under C08.k; it is necessary for C08/C09, not a decision of C07.',
 }
 
 
